@@ -49,13 +49,17 @@ class RinexHeader(NamedTuple):
 def parser_cache(
     func: Callable[["RinexParser", _FieldStr, _FieldCache], _FieldVal],
 ) -> Callable[["RinexParser", _FieldStr], _FieldVal]:
-    """Decorator for adding a cache to parser functions"""
-    func.cache = list()  # type: ignore  # mypy is not picking up .cache
+    """Decorator for adding a cache to parser functions
+
+    The cache is kept on the parser instance, so that header lines of one file are never mixed with lines of files
+    parsed earlier by other parser instances.
+    """
 
     @functools.wraps(func)
     def wrapper_parser_cache(self: "RinexParser", fields: _FieldStr) -> _FieldVal:
-        value = func(self, fields, func.cache)  # type: ignore
-        func.cache.append(fields)  # type: ignore
+        cache = self.__dict__.setdefault("_parser_cache", dict()).setdefault(func.__name__, list())
+        value = func(self, fields, cache)
+        cache.append(fields)
         return value
 
     return wrapper_parser_cache
